@@ -14,6 +14,7 @@ import (
 
 	"github.com/indexsupply/shovel/dig"
 	"github.com/indexsupply/shovel/eth"
+	"github.com/indexsupply/shovel/shovel"
 	"github.com/indexsupply/shovel/shovel/config"
 	"github.com/indexsupply/shovel/wctx"
 	"github.com/indexsupply/shovel/wpg"
@@ -104,7 +105,7 @@ type c13Log struct {
 func TestC13_Gate(t *testing.T) {
 	ev := evid.For("C13", "Gate")
 	rapid.Check(t, func(rt *rapid.T) {
-		e := gen.GenEvent(rt, gen.EventOpts{Types: gen.TypeOpts{MaxDepth: 2, MaxTuple: 3, MaxFixed: 3}, MaxInputs: 4, AllowIndexed: true, SelProb: 60})
+		e := gen.GenEvent(rt, gen.EventOpts{Types: gen.TypeOpts{MaxDepth: 2, MaxTuple: 3, MaxFixed: 3}, MaxInputs: 4, AllowIndexed: true, IndexedComposite: true, SelProb: 60})
 		// make sure something is selected so that the integration is log-indexing
 		if len(e.Selected()) == 0 {
 			e.Inputs[0].Column = "c99"
@@ -244,7 +245,7 @@ func TestC13_SeveralIntegrations(t *testing.T) {
 		var all []*one
 		seen := map[string]bool{}
 		for i := 0; i < k; i++ {
-			e := gen.GenEvent(rt, gen.EventOpts{Types: gen.TypeOpts{MaxDepth: 1, MaxTuple: 2, MaxFixed: 2}, MaxInputs: 3, AllowIndexed: true, SelProb: 60})
+			e := gen.GenEvent(rt, gen.EventOpts{Types: gen.TypeOpts{MaxDepth: 1, MaxTuple: 2, MaxFixed: 2}, MaxInputs: 3, AllowIndexed: true, IndexedComposite: true, SelProb: 60})
 			e.Name = fmt.Sprintf("%s%d", e.Name, i)
 			e.Inputs = append(e.Inputs, &refmodel.Type{Kind: refmodel.KUint, Bits: 256, Name: "extra", Column: "c98"})
 			if seen[e.Signature()] {
@@ -370,7 +371,7 @@ func TestC13_StoredIntegrations(t *testing.T) {
 				}
 				sameShape = true
 			} else {
-				e = gen.GenEvent(rt, gen.EventOpts{Types: gen.TypeOpts{MaxDepth: 1, MaxTuple: 2, MaxFixed: 2}, MaxInputs: 4, AllowIndexed: true, SelProb: 70})
+				e = gen.GenEvent(rt, gen.EventOpts{Types: gen.TypeOpts{MaxDepth: 1, MaxTuple: 2, MaxFixed: 2}, MaxInputs: 4, AllowIndexed: true, IndexedComposite: true, SelProb: 70})
 			}
 			if len(e.Selected()) == 0 {
 				e.Inputs = append(e.Inputs, &refmodel.Type{Kind: refmodel.KUint, Bits: 256, Name: "extra", Column: "c98"})
@@ -409,9 +410,17 @@ func TestC13_StoredIntegrations(t *testing.T) {
 				cols = append(cols, wpg.Column{Name: s.Column, Type: "bytea"})
 			}
 			cols = append(cols, wpg.Column{Name: "log_idx", Type: "int"})
-			g, err := dig.New(ig.Name, ig.Event, []dig.BlockData{{Name: "log_idx", Column: "log_idx"}}, wpg.Table{Name: "t", Columns: cols}, dig.Notification{}, "or")
+			// built the way the manager builds it (names recur from case to case within this
+			// process, like an integration that is edited and saved again under its name)
+			ig.Block = []dig.BlockData{{Name: "log_idx", Column: "log_idx"}}
+			ig.Table = wpg.Table{Name: "t", Columns: cols}
+			ig.FilterAGG = "or"
+			g, err := shovel.NewDestination(ig)
 			if err != nil {
 				rt.Fatalf("VERIF-VIOLATION property=C13 stored integration %s (%s) cannot be built after loading: %v", ig.Name, e.Signature(), err)
+			}
+			if tp := func() [][]string { f := g.Filter(); return f.Topics() }(); len(tp) != 1 || len(tp[0]) != 1 || !strings.EqualFold(strings.TrimPrefix(tp[0][0], "0x"), hex.EncodeToString(e.SigHash())) {
+				rt.Fatalf("VERIF-VIOLATION property=C13 stored integration %s (%s) asks the source for topic %v, its signature hash is %x", ig.Name, e.Signature(), tp, e.SigHash())
 			}
 			vals := gen.GenEventValues(rt, e, gen.ValueOpts{MaxDynLen: 2, MaxBytes: 20})
 			topics, data := e.LogOf(vals)
